@@ -166,7 +166,10 @@ def main():
                     ev = os.path.join(V, "evidence", prop + ".json")
                     keep = os.path.join(OUT, "keep_" + prop + ".json")
                     if os.path.exists(ev): shutil.copy(ev, keep)
-                    rc3, out3 = sh([os.path.join(V, "check"), prop, "--tier", "quick"], cwd=V, timeout=3000, env={"VERIF_REPO": WT})
+                    try:
+                        rc3, out3 = sh([os.path.join(V, "check"), prop, "--tier", "quick"], cwd=V, timeout=2400, env={"VERIF_REPO": WT})
+                    except subprocess.TimeoutExpired:
+                        rc3, out3 = 1, "VIOLATION (the check did not finish in 40 minutes on the changed tree)\n  (timeout) hang or run-away"
                     if os.path.exists(keep): shutil.copy(keep, ev)
                     msgs = [l.strip() for l in out3.split("\n") if l.startswith("  (")][:2]
                     rec["checks"][prop] = {"exit": rc3, "violations": out3.count("\nVIOLATION") + out3.startswith("VIOLATION"),
